@@ -306,9 +306,9 @@ theorem res_ne_of_outOfExn {α} {r : Res Err α} {o : Outcome Val Err}
   · intro hr; exact hf (by rw [h _ hr]; rfl)
   · intro hr; exact hb (by rw [h _ hr]; rfl)
 
-theorem runConsumers_outcome {S : Sem Val Err Op} (fuel : Nat) : ∀ (cs : List (Consumer Val))
+theorem runConsumers_outcome {S : Sem Val Err Op} (fuel : Nat) (q : PId) : ∀ (cs : List (Consumer Val))
     (w : World Val Err Op) (log : List (Nat × Val)) (o : Outcome Val Err) (w' : World Val Err Op),
-    runConsumers S fuel cs w log = (o, w') → (∃ calls e, o = .set calls e) ∨ o = .fuel ∨ o = .bad
+    runConsumers S fuel q cs w log = (o, w') → (∃ calls e, o = .set calls e) ∨ o = .fuel ∨ o = .bad
   | [], w, log, o, w', h => by
     simp only [runConsumers, Prod.mk.injEq] at h
     exact Or.inl ⟨log, none, h.1.symm⟩
@@ -320,7 +320,7 @@ theorem runConsumers_outcome {S : Sem Val Err Op} (fuel : Nat) : ∀ (cs : List 
       | mk r w1 =>
         simp only [h1] at h
         cases r with
-        | ok cv => exact runConsumers_outcome fuel cs _ log o w' h
+        | ok cv => exact runConsumers_outcome fuel q cs _ log o w' h
         | error x =>
           cases x <;> simp only [Prod.mk.injEq] at h
           · exact Or.inl ⟨log, some _, h.1.symm⟩
@@ -332,7 +332,7 @@ theorem runConsumers_outcome {S : Sem Val Err Op} (fuel : Nat) : ∀ (cs : List 
       | mk r w1 =>
         simp only [h1] at h
         cases r with
-        | ok cv => exact runConsumers_outcome fuel cs _ log o w' h
+        | ok cv => exact runConsumers_outcome fuel q cs _ log o w' h
         | error x =>
           cases x <;> simp only [Prod.mk.injEq] at h
           · exact Or.inl ⟨log, some _, h.1.symm⟩
@@ -344,19 +344,19 @@ theorem runConsumers_outcome {S : Sem Val Err Op} (fuel : Nat) : ∀ (cs : List 
       | mk r w1 =>
         simp only [h1] at h
         cases r with
-        | ok cv => exact runConsumers_outcome fuel cs _ _ o w' h
+        | ok cv => exact runConsumers_outcome fuel q cs _ _ o w' h
         | error x =>
           cases x <;> simp only [Prod.mk.injEq] at h
           · exact Or.inl ⟨log, some _, h.1.symm⟩
           · exact Or.inr (Or.inl h.1.symm)
           · exact Or.inr (Or.inr h.1.symm)
-    | sync k n d =>
+    | sync k n d a =>
       simp only [runConsumers] at h
       cases h1 : run S fuel (.resolve n) w with
       | mk r w1 =>
         simp only [h1] at h
         cases r with
-        | ok cv => exact runConsumers_outcome fuel cs _ _ o w' h
+        | ok cv => exact runConsumers_outcome fuel q cs _ _ o w' h
         | error x =>
           cases x <;> simp only [Prod.mk.injEq] at h
           · exact Or.inl ⟨log, some _, h.1.symm⟩
@@ -728,7 +728,7 @@ theorem good_step {S : Sem Val Err Op} {w w' : World Val Err Op}
       · exact Or.inr (Or.inr (by simp only [Prod.mk.injEq] at h; exact h.1.symm))
       · split at h
         · exact Or.inl ⟨[], none, by simp only [Prod.mk.injEq] at h; exact h.1.symm⟩
-        · exact runConsumers_outcome fuel _ _ _ o w' h
+        · exact runConsumers_outcome fuel _ _ _ _ o w' h
     rcases hshape with ⟨calls, e, rfl⟩ | rfl | rfl
     · cases e with
       | some e => exact absurd rfl (hset calls e)
@@ -782,7 +782,7 @@ theorem good_step {S : Sem Val Err Op} {w w' : World Val Err Op}
           | ok v =>
             simp only [Prod.mk.injEq] at h; obtain ⟨_, rfl⟩ := h
             obtain ⟨nd1, hn1, hs1⟩ := p1.stat.node hn
-            have e : Ext w1 { w1 with consumers := w1.consumers ++ [Consumer.sync w1.holders.length n nd.params],
+            have e : Ext w1 { w1 with consumers := w1.consumers ++ [Consumer.sync w1.holders.length n nd.params w1.nodes.length],
                                       holders := w1.holders ++ [v] } :=
               ⟨⟨[], by simp⟩, ⟨[], by simp⟩, ⟨[], by simp⟩, ⟨[_], rfl⟩, fun _ _ => rfl⟩
             refine g1.ext0 e rfl ?_ g1.inLt g1.trOK g1.trLt
